@@ -275,6 +275,10 @@ def main(pid, tier, jobs=None):
         print(l)
     print('%s %s: structures=%d paths=%d (outside precondition %d) obligations=%d discharged=%d queries=%d solver=%.1fs wall=%.1fs' % (
         pid, tier, len(structures), paths, aborted, obligations, discharged, feas + prop, solver_s, wall))
+    if os.environ.get('VX_PROFILE'):
+        top = sorted(results, key=lambda r: -r['paths'])[:25]
+        for r in top:
+            print('  PROFILE paths=%d wall=%.1fs %s' % (r['paths'], r['wall_s'], json.dumps(r['structure'])[:120]))
     if problems:
         print('INCONCLUSIVE (%d):' % len(problems))
         for p in problems[:12]:
